@@ -86,6 +86,15 @@ class World:
         cfg = {}
         for ms in mspecs:
             cls = modgen.build_class(ms, self.events, hw=self.hw)
+            if ms.get('redeclare'):
+                # a subclass declares some parameters again (a property override): limits and check hooks of the base class
+                # still apply
+                import frappy.core as C_
+                over = {p['name']: C_.Parameter(group='regrouped') for p in ms['params']
+                        if (p.get('limits') or p.get('check')) and p['constant'] is None}
+                if over:
+                    cls = type(cls.__name__ + 'Redeclared', (cls,), dict(over, __module__=cls.__module__))
+                    self.r.count('classes_redeclaring_parameters_with_limits_or_hooks')
             cfg[ms['name']] = modgen.module_cfg(ms, cls)
             if not ms['export']:
                 # the configuration of an unexported module may still carry export settings of single accessibles (left
@@ -131,6 +140,7 @@ class World:
             # class shape: limits declared beside the parameter, or added by a subclass of the class that defines the
             # parameter; in the second shape an inherited check hook and the automatic limit check both apply
             ms['split_limits'] = rng.random() < 0.4
+            ms['redeclare'] = rng.random() < 0.3
             for p in ms['params']:
                 if p['limits'] and p['check'] and not ms['split_limits']:
                     p['check'] = None
